@@ -67,14 +67,13 @@ func (l Location) GetPositions() ([]int, error) {
 
 // True/false this location is on the reverse strand
 func (l Location) IsReverse() (bool, error) {
-	pos, err := l.GetPositions()
+	_, err := l.GetPositions()
 	if err != nil {
 		return true, err
 	}
-	if pos[0] > pos[len(pos)-1] {
-		return true, nil
-	}
-	return false, nil
+	// the strand is what the complement() operator says, not the order of the coordinates: the segments
+	// of a join may be listed in descending order (a feature that spans the origin of a circular genome)
+	return strings.Contains(l.Representation, "complement("), nil
 }
 
 // // 5'-most position relative to the forward strand
